@@ -179,6 +179,9 @@ func (v *valuesVisitor) valueSatisfiesInputValueDefinitionType(value ast.Value, 
 	}
 }
 
+// variableValueSatisfiesDefinitionType checks a variable used inside a list or an input object literal: its whole
+// type has to fit the position (a list variable does not fit an item position, a nullable one no non-null
+// position), not only the name of its base type.
 func (v *valuesVisitor) variableValueSatisfiesDefinitionType(value ast.Value, definitionTypeRef int) bool {
 	variableDefinitionRef, variableTypeRef, _, exists := v.operationVariableType(value.Ref)
 	if !exists {
@@ -267,8 +270,7 @@ func (v *valuesVisitor) valueSatisfiesTypeDefinitionNode(value ast.Value, defini
 
 func (v *valuesVisitor) valueSatisfiesEnum(value ast.Value, definitionTypeRef int, node ast.Node) bool {
 	if value.Kind == ast.ValueKindVariable {
-		expectedTypeName := node.NameBytes(v.definition)
-		return v.variableValueHasMatchingTypeName(value, definitionTypeRef, expectedTypeName)
+		return v.variableValueSatisfiesDefinitionType(value, definitionTypeRef)
 	}
 
 	if value.Kind == ast.ValueKindString && v.allowStringLiteralsForEnums {
@@ -307,7 +309,7 @@ func (v *valuesVisitor) valueSatisfiesScalar(value ast.Value, definitionTypeRef 
 	scalarName := v.definition.ScalarTypeDefinitionNameBytes(scalar)
 
 	if value.Kind == ast.ValueKindVariable {
-		return v.variableValueHasMatchingTypeName(value, definitionTypeRef, scalarName)
+		return v.variableValueSatisfiesDefinitionType(value, definitionTypeRef)
 	}
 
 	switch {
@@ -417,8 +419,7 @@ func (v *valuesVisitor) valueSatisfiesScalarString(value ast.Value, definitionTy
 
 func (v *valuesVisitor) valueSatisfiesInputObjectTypeDefinition(value ast.Value, definitionTypeRef int, inputObjectTypeDefinition int) bool {
 	if value.Kind == ast.ValueKindVariable {
-		expectedTypeName := v.definition.InputObjectTypeDefinitionNameBytes(inputObjectTypeDefinition)
-		return v.variableValueHasMatchingTypeName(value, definitionTypeRef, expectedTypeName)
+		return v.variableValueSatisfiesDefinitionType(value, definitionTypeRef)
 	}
 
 	if value.Kind != ast.ValueKindObject {
@@ -578,25 +579,6 @@ func (v *valuesVisitor) objectValueSatisfiesInputValueDefinition(objectValue ast
 	// argument is not present on object value, if arg is optional it's still ok, otherwise not satisfied
 	if !v.definition.InputValueDefinitionArgumentIsOptional(inputValueDefinition) {
 		v.handleMissingRequiredFieldOfInputObjectError(objectValue, name, inputObjectDefinition, inputValueDefinition)
-		return false
-	}
-
-	return true
-}
-
-func (v *valuesVisitor) variableValueHasMatchingTypeName(value ast.Value, definitionTypeRef int, expectedTypeName []byte) bool {
-	variableDefinitionRef, _, actualTypeName, exists := v.operationVariableType(value.Ref)
-	if !exists {
-		v.handleUndefinedVarError(value)
-		return false
-	}
-
-	if v.operation.VariableDefinitionHasDefaultValue(variableDefinitionRef) {
-		return v.valueSatisfiesInputValueDefinitionType(v.operation.VariableDefinitions[variableDefinitionRef].DefaultValue.Value, definitionTypeRef)
-	}
-
-	if !bytes.Equal(actualTypeName, expectedTypeName) {
-		v.handleVariableHasIncompatibleTypeError(value, definitionTypeRef)
 		return false
 	}
 
